@@ -22,7 +22,9 @@ var elemPool = []string{"a", "b", "i", "p", "div", "span", "img", "br", "hr", "t
 	"blockquote", "q", "del", "ins", "area", "map", "link", "base", "audio", "video", "source", "track", "embed", "iframe", "input", "form", "button",
 	"select", "option", "textarea", "title", "object", "svg", "math", "xmp", "noscript", "plaintext", "script", "style", "my-x", "my-y", "x-a-y", "tag1",
 	"font", "main", "label", "meta", "frameset", "frame", "nostyle", "noembed", "noframes", "image", "template", "details", "summary", "bdo", "time", "pre", "code",
-	"col", "colgroup", "caption", "em", "u", "h3", "ol", "dl", "dt", "dd", "section", "param", "wbr"}
+	"col", "colgroup", "caption", "em", "u", "h3", "ol", "dl", "dt", "dd", "section", "param", "wbr",
+	// custom element names with non-ASCII characters (valid, and left alone by the tokenizer's ASCII lower-casing)
+	"x-caf\u00e9", "my-\u00fc"}
 
 var attrPool = []string{"href", "src", "cite", "id", "class", "title", "alt", "lang", "dir", "name", "rel", "target", "style", "onclick", "onerror",
 	"width", "height", "align", "data-x", "data-xml-a", "data-a;b", "value", "type", "crossorigin", "sandbox", "datetime", "colspan", "xlink:href", "open", "nowrap",
@@ -77,9 +79,9 @@ var elReSamples = [][]string{{"my-x", "my-zzz"}, {"my-y", "x-a-y"}, {"x-a-y", "x
 	{"b", "i", "u", "em"}, {"tag1", "tagged"}, {"a", "img", "link"}, {"b", "ul", "del", "qq"}, {"my-x", "my-zzz"}, {"zz", "my-x", "div", "custom"}, {"my-y", "x-a-y"},
 	{"my-x", "my-zzz"}, {}, {"qxq"}, {}}
 
-var schemePool = []string{"http", "https", "mailto", "ftp", "data", "x-app", "javascript", "tel", "zoommtg"}
+var schemePool = []string{"http", "https", "mailto", "ftp", "data", "x-app", "javascript", "tel", "zoommtg", ""}
 
-var schemeRePool = []*regexp.Regexp{regexp.MustCompile(`^x-`), regexp.MustCompile(`^(ftp|sftp)$`), regexp.MustCompile(`^tel$`), regexp.MustCompile(`s$`), regexp.MustCompile(`^[a-z]+$`)}
+var schemeRePool = []*regexp.Regexp{regexp.MustCompile(`^x-`), regexp.MustCompile(`^(ftp|sftp)$`), regexp.MustCompile(`^tel$`), regexp.MustCompile(`s$`), regexp.MustCompile(`^[a-z]+$`), regexp.MustCompile(`^(https?|ftp)?$`), regexp.MustCompile(`^[a-z]*$`)}
 
 var stylePropPool = []string{"color", "font-family", "text-decoration", "margin", "background-image", "opacity", "nosuchprop", "text-align", "width", "x-any", "x-kw",
 	"background", "font-size", "border", "animation", "filter", "list-style", "transition", "height", "float", "-webkit-color", "-moz-text-align", "mso-width", "z-index"}
